@@ -36,6 +36,11 @@ pub open spec fn is_term(e: Expression) -> bool {
     is_leaf(e) || (e is Match && is_leaf(*e->Match_1))
 }
 
+// a Matrix cell only asks for synthetic one-character column keys below the table width (what matrix() builds)
+pub open spec fn cell_keys_ok(cell: Expression, ids: Ids, width: nat) -> bool {
+    forall|k: Seq<char>| #[trigger] asks(cell, ids, k) ==> k.len() > 0 && cache_index(k) < width
+}
+
 // Well-formedness: what loading must establish so that evaluation cannot hit a panic site (C03).
 pub open spec fn wf(e: Expression, ids: Ids) -> bool
     decreases e,
@@ -52,7 +57,8 @@ pub open spec fn wf(e: Expression, ids: Ids) -> bool
         Expression::Search(kind, _, _) => search_wf(kind),
         Expression::Matrix(cols, rows) => forall|j: int, i: int| 0 <= j < rows.len() && 0 <= i < rows[j].len() ==>
             rows[j].len() == cols.len()
-            && ((#[trigger] rows[j][i]) is Some ==> solvable(rows[j][i]->Some_0) && wf(rows[j][i]->Some_0, ids) && !has_ident(rows[j][i]->Some_0)),
+            && ((#[trigger] rows[j][i]) is Some ==> solvable(rows[j][i]->Some_0) && wf(rows[j][i]->Some_0, ids) && !has_ident(rows[j][i]->Some_0)
+                && cell_keys_ok(rows[j][i]->Some_0, ids, cols.len() as nat)),
         _ => true,
     }
 }
@@ -363,7 +369,6 @@ pub open spec fn permitted(e: Expression, ids: Ids, d: DocM) -> bool {
 
 // ---------------------------------------------------------------- the main recursion
 // (temporarily uninterpreted pieces: the Matrix forms and the merged-search leaves of all()/of())
-pub uninterp spec fn sem_matrix(cols: Vec<String>, rows: Vec<Vec<Option<Expression>>>, ids: Ids, d: DocM) -> SolverResult;
 pub uninterp spec fn sem_nested_array_matrix(cols: Vec<String>, rows: Vec<Vec<Option<Expression>>>, ids: Ids, a: ArrM) -> SolverResult;
 pub uninterp spec fn sem_matrix_all(cols: Vec<String>, rows: Vec<Vec<Option<Expression>>>, ids: Ids, d: DocM) -> SolverResult;
 pub uninterp spec fn sem_matrix_of(cols: Vec<String>, rows: Vec<Vec<Option<Expression>>>, n: u64, ids: Ids, d: DocM) -> SolverResult;
@@ -442,6 +447,54 @@ pub open spec fn sem_of_leaf(t: Expression, n: u64, ids: Ids, d: DocM) -> Solver
     }
 }
 
+// ---- Matrix(columns, rows): an or of rows, each row an and of its present cells; the value of column i is fetched
+// from the document at most once (cache) and cell i is evaluated against the cache under the one-character key i.
+pub open spec fn empty_cache(n: nat) -> Seq<Option<V>> { Seq::new(n, |i: int| None::<V>) }
+
+// cells i.. of one row against the current cache: (row result so far, cache afterwards)
+pub open spec fn row_eval(cols: Vec<String>, row: Vec<Option<Expression>>, i: int, cache: Seq<Option<V>>, ids: Ids, d: DocM, parent: Expression)
+    -> (SolverResult, Seq<Option<V>>)
+    decreases lvl(parent), parent, 0int, row.len() - i,
+    when forall|k: int| 0 <= k < row.len() && (#[trigger] row[k]) is Some ==> decreases_to!(parent => row[k]->Some_0) && lvl(row[k]->Some_0) <= lvl(parent)
+{
+    if i < 0 || i >= row.len() || i >= cache.len() || i >= cols.len() { (SolverResult::True, cache) }
+    else {
+        match row[i] {
+            None => row_eval(cols, row, i + 1, cache, ids, d, parent),
+            Some(cell) => {
+                let c2 = if cache[i] is None {
+                    match dm_find(d, cols[i]@) { Some(v) => Some(cache.update(i, Some(v))), None => None }
+                } else { Some(cache) };
+                match c2 {
+                    None => (SolverResult::Missing, cache),
+                    Some(c) => match sem3(cell, ids, DocM::Cache(c)) {
+                        SolverResult::True => row_eval(cols, row, i + 1, c, ids, d, parent),
+                        r => (r, c),
+                    },
+                }
+            },
+        }
+    }
+}
+
+// rows j.. : true as soon as a row is true, else false if some row was false, else missing
+pub open spec fn rows_eval(cols: Vec<String>, rows: Vec<Vec<Option<Expression>>>, j: int, cache: Seq<Option<V>>, acc: SolverResult, ids: Ids, d: DocM, parent: Expression)
+    -> SolverResult
+    decreases lvl(parent), parent, 1int, rows.len() - j,
+    when forall|a: int, b: int| 0 <= a < rows.len() && 0 <= b < rows[a].len() && (#[trigger] rows[a][b]) is Some
+        ==> decreases_to!(parent => rows[a][b]->Some_0) && lvl(rows[a][b]->Some_0) <= lvl(parent)
+{
+    if j < 0 || j >= rows.len() { acc }
+    else {
+        let (hit, c2) = row_eval(cols, rows[j], 0, cache, ids, d, parent);
+        match hit {
+            SolverResult::True => SolverResult::True,
+            SolverResult::False => rows_eval(cols, rows, j + 1, c2, SolverResult::False, ids, d, parent),
+            SolverResult::Missing => rows_eval(cols, rows, j + 1, c2, acc, ids, d, parent),
+        }
+    }
+}
+
 // results of the elements of a group, in written order
 pub open spec fn sems(g: Vec<Expression>, ids: Ids, d: DocM, parent: Expression) -> Seq<SolverResult>
     decreases lvl(parent), parent, 0int,
@@ -484,7 +537,7 @@ pub open spec fn sem3(e: Expression, ids: Ids, d: DocM) -> SolverResult
                 },
             }
         },
-        Expression::Matrix(cols, rows) => sem_matrix(cols, rows, ids, d),
+        Expression::Matrix(cols, rows) => rows_eval(cols, rows, 0, empty_cache(cols.len() as nat), SolverResult::Missing, ids, d, e),
         Expression::Negate(x) => not3(sem3(*x, ids, d)),
         Expression::Nested(f, x) => match dm_find(d, f@) {
             None => SolverResult::Missing,
